@@ -2,8 +2,10 @@ use crate::rep::Report;
 use crate::Ctx;
 
 pub mod c01;
+pub mod c04;
 pub mod c08;
 pub mod c09;
+pub mod c13;
 pub mod c14;
 pub mod c16;
 pub mod c18;
@@ -11,8 +13,10 @@ pub mod c18;
 pub fn run(prop: &str, ctx: &Ctx, r: &mut Report) -> bool {
 	match prop {
 		"C01" => c01::run(ctx, r),
+		"C04" => c04::run(ctx, r),
 		"C08" => c08::run(ctx, r),
 		"C09" => c09::run(ctx, r),
+		"C13" => c13::run(ctx, r),
 		"C14" => c14::run(ctx, r),
 		"C16" => c16::run(ctx, r),
 		"C18" => c18::run(ctx, r),
